@@ -85,7 +85,7 @@ def run(ctx):
     recs = []
     for consts in plans:
         if not quick and consts["Wide"] == "TRUE":
-            res = tlc.run("MC_C16", constants=consts, simulate=6000, depth=12, seed=ctx.seed + 16,
+            res = tlc.run("MC_C16", constants=consts, simulate=6000 // 16, depth=12, seed=ctx.seed + 16,
                           keep_lines=lambda r: r.get("k") == "case", timeout=3000, check_count=False)
         else:
             res = tlc.run("MC_C16", constants=consts, keep_lines=lambda r: r.get("k") == "case", timeout=7000, heap="12g")
